@@ -1,5 +1,5 @@
 (* C15: the Huffman decoder model (decode.rs) against RFC 7541 5.2. *)
-From H3V Require Import Base.Bytes Base.BytesLemmas Gen.GenHuffDec
+From H3V Require Import Base.Bytes Base.BytesLemmas Gen.GenHuffDec Gen.GenBitwin
   Spec.RFC7541Huffman Spec.HuffmanKnown Model.Huffman
   Proofs.C15Finite Proofs.BitsLemmas Proofs.HuffmanWalk Proofs.HuffmanStrict.
 From Coq Require Import ZifyBool ZifyNat ZifyN.
@@ -155,7 +155,7 @@ Lemma read_bits_ok src byte bit c : wf_bytes src -> fits_u32 src -> bit < 8 -> 1
   read_bits src byte bit c =
   Ok (bits_val 0 (firstn (N.to_nat c) (skipn (bitpos byte bit) (bits_of_bytes src)))).
 Proof.
-  intros Hwf Hsz Hbit Hc Hin. unfold read_bits, bitpos, fits_u32 in *.
+  intros Hwf Hsz Hbit Hc Hin. unfold read_bits, bitpos, fits_u32, bw_read_bits_width in *.
   change (2 ^ 32) with 4294967296 in *.
   destruct (N.eqb_spec c 0) as [?|_]; [lia|].
   destruct (N.ltb_spec 8 c) as [?|_]; [lia|].
@@ -196,7 +196,7 @@ Lemma read_bits_short src byte bit c : fits_u32 src -> c <= 8 ->
   (bitpos byte bit <= 8 * length src)%nat ->
   (8 * length src < bitpos byte bit + N.to_nat c)%nat -> read_bits src byte bit c = Err tt.
 Proof.
-  intros Hsz Hc8 Hlo H. unfold read_bits, bitpos, fits_u32 in *.
+  intros Hsz Hc8 Hlo H. unfold read_bits, bitpos, fits_u32, bw_read_bits_width in *.
   change (2 ^ 32) with 4294967296 in *.
   destruct ((c =? 0) || (8 <? c)); [reflexivity|].
   rewrite (N.mod_small (len src)) by lia.
@@ -262,7 +262,16 @@ Lemma forwards_facts step w :
   bw_count (forwards step w) = step /\
   pos_end (forwards step w) = (pos_end w + N.to_nat step)%nat.
 Proof.
-  unfold forwards, pos_end, bitpos. cbn [bw_byte bw_bit bw_count]. repeat split; lia.
+  unfold forwards, pos_end, bitpos, bw_bits_per_byte. cbn [bw_byte bw_bit bw_count]. repeat split; lia.
+Qed.
+
+(* the field updates of `forwards` stay inside their u32 fields as long as the position does *)
+Lemma forwards_chk_ok step w : N.of_nat (pos_end w) < 2 ^ 32 -> forwards_chk step w = Some (forwards step w).
+Proof.
+  unfold forwards_chk, pos_end, bw_bit_width, bw_byte_width, bw_bits_per_byte.
+  change (2 ^ 32) with 4294967296. intros H.
+  destruct (N.leb_spec 4294967296 (bw_bit w + bw_count w)); [lia|].
+  destruct (N.leb_spec 4294967296 (bw_byte w + (bw_bit w + bw_count w) / 8)); [lia|]. reflexivity.
 Qed.
 
 (* ================================================================ check_eof *)
@@ -283,9 +292,11 @@ Lemma check_eof_spec w input : wf_bytes input -> fits_u32 input -> bw_bit w < 8 
   (all_ones (skipn (bitpos (bw_byte w) (bw_bit w)) (bits_of_bytes input)) = true -> check_eof w input = Ok None).
 Proof.
   intros Hwf Hsz Hbit Hcnt Hlo Hhi. unfold check_eof.
+  destruct (N.leb_spec (2 ^ bw_byte_width) (bw_byte w + 1)) as [Hov|_].
+  { unfold bw_byte_width, fits_u32, bitpos, len in *. change (2 ^ 32) with 4294967296 in *. lia. }
   destruct (N.compare_spec (bw_byte w + 1) (len input)) as [Heq|Hlt|Hgt].
   - (* on the last byte *)
-    unfold opposite_bit_window. cbn [bw_byte bw_bit bw_count].
+    unfold opposite_bit_window, bw_bits_per_byte. cbn [bw_byte bw_bit bw_count].
     replace (bw_bit w mod 8) with (bw_bit w) by lia.
     assert (Hk : 1 <= 8 - bw_bit w <= 8) by lia.
     rewrite read_bits_ok; [|assumption|assumption|assumption|lia|unfold bitpos, len in *; lia].
@@ -340,6 +351,8 @@ Proof.
     apply andb_true_iff in Hok as [Hok Hokt]. apply andb_true_iff in Hok as [Hl1 Hl8].
     apply N.leb_le in Hl1, Hl8.
     cbn [twalk decode_next].
+    rewrite forwards_chk_ok.
+    2:{ unfold fits_u32, len in Hsz. change (2 ^ 32) with 4294967296 in *. lia. }
     destruct (forwards_facts lookup w) as (Fbit & Fpos & Fcnt & Fend).
     set (w1 := forwards lookup w) in *.
     unfold fetch_value. rewrite Fcnt.
